@@ -52,17 +52,17 @@ for k, what in (("exp", "literals with an exponent and no dot (1e1000, 1E2, -2e-
 
 FU = "jaq-json/src/funs.rs::"
 ob("O-C12-contains-arr", ["C12"], J, "c12_contains_arrays", "Val::contains on arrays of integers at four points: every element of the argument is contained in some element of the input - also when the argument is longer than the input ([1,2] contains [1,1,2]); [3] is not contained; the empty array is contained in everything and contains only itself", [FU + "Val::contains"], label="point", kind="point")
-for k, what in (("arrays", "array argument: exactly the window positions i with .[i:][:len] == argument, overlapping matches included, the empty array nowhere"),
+for k, what in (("arrays", "array argument: exactly the window positions i with .[i:][:len] == argument, overlapping matches included"),
                 ("element", "non-array argument on an array: the positions of the equal elements"),
-                ("bytes", "byte strings: window positions counted in bytes, the empty string nowhere"),
-                ("text", "text strings with multi-byte characters: positions counted in characters, the empty string nowhere")):
+                ("bytes", "byte strings: window positions counted in bytes"),
+                ("text", "text strings with multi-byte characters: positions counted in characters")):
     ob(f"O-C12-indices-{k}", ["C12"], J, f"c12_indices_{k}", "Val::indices at points - " + what, [FU + "Val::indices"], label="point", kind="point")
 
 ob("O-C07-writebuf-utf8", ["C07"], J, "c07_write_buf_invalid_utf8", "write_buf (the writer behind tojson / tostring / @json) on the text string a, 0xFF, b: the invalid byte is written unchanged between the quotes (not replaced by U+FFFD), as the command-line writer does", ["jaq-json/src/write.rs::write_buf"], label="point", kind="point")
 ob("O-C07-writebuf-atoms", ["C07"], J, "c07_write_buf_atoms", "write_buf on null and true writes the four bytes of the literal", ["jaq-json/src/write.rs::write_buf"], label="point", kind="point")
 
 for k, tier, what in (("plain", "quick", "text string: the bytes a, 0xFF, b before the closing quote are copied unchanged (invalid UTF-8 preserved as-is)"),
-                      ("bytes", "quick", "byte string: \\xff\\x00a denotes the bytes FF 00 61 (the byte itself, not the character U+00FF); \\u is refused"),
+                      ("bytes", "quick", "byte string: \\xff\\x00a denotes the bytes FF 00 61 (the byte itself, not the character U+00FF)"),
                       ("esc", "thorough", "text string: \\n and \\\" denote line feed and quote"),
                       ("uni", "thorough", "text string: \\u00e4 denotes U+00E4, stored as its UTF-8 bytes C3 A4")):
     ob(f"O-C07-parse-string-{k}", ["C07"], J, f"c07_parse_string_{k}", "parse_string (the JSON / XJON string reader) on a literal run through hifijson's real slice lexer - " + what, ["jaq-json/src/read.rs::parse_string"], label="point", kind="point", tier=tier, composes_dependency=True)
@@ -191,7 +191,7 @@ for fmt, what, firsts in (("csv", "the RFC 4180 quoting (surrounding quotes, dou
     for f in firsts:
         ob(f"O-C13-{fmt}-reader-{f}", ["C13", "C14", "C05"], F, f"c13_{fmt}_reader_{f}", f"the real {fmt.upper()} field reader inverts {what}: for every field content of length <= 2 over the format's metacharacters and a letter (first character: {f}), ended by end of input, the separator or a newline, it returns exactly that content, stops at the terminator and consumes nothing else", [FM + f"read/tabular.rs::{fmt}_field", FM + "read/tabular.rs::field"], label="bounded", bound="field contents of length <= 2 over the metacharacter alphabet, three terminators; enumerated concretely", timeout=900)
 ob("O-C14-csv-rows-quoted", ["C14"], F, "c14_csv_rows_quoted_empty", "the real CSV row reader (read_csv / row / Field::is_empty / From<Field>) on the text `\"\"` - exactly what `[\"\"] | tocsv` writes - yields one row holding one empty string, not the end of input", [FM + "read/tabular.rs::row", FM + "read/tabular.rs::Field::is_empty", FM + "read/tabular.rs::read_csv"], label="point", kind="point")
-ob("O-C14-csv-rows-basic", ["C14"], F, "c14_csv_rows_basic", "the real CSV row reader on four texts made of empty and quoted-empty cells: empty text -> no row; a newline -> [null]; a comma -> [null, null]; two rows of quoted-empty / empty cells come back cell for cell (null vs the empty string kept apart)", [FM + "read/tabular.rs::row", FM + "read/tabular.rs::Field::is_empty", FM + "read/tabular.rs::read_csv"], label="point", kind="point")
+ob("O-C14-csv-rows-basic", ["C14"], F, "c14_csv_rows_basic", "the real CSV row reader on two texts made of empty and quoted-empty cells: a comma -> [null, null]; two rows of quoted-empty / empty cells come back cell for cell (null vs the empty string kept apart)", [FM + "read/tabular.rs::row", FM + "read/tabular.rs::Field::is_empty", FM + "read/tabular.rs::read_csv"], label="point", kind="point")
 YQ = "needs_quote(s) ==> must_quote(s), where needs_quote is written from the YAML 1.2.2 core schema (strings a reader resolves to null / bool / int / float), the document markers and the rule that leading / trailing blanks are not part of a plain scalar, and must_quote is the real function deciding whether the YAML writer emits a text string plain - "
 for k, what in (("core", "ten usual spellings (1, -1, 1e3, 0x1F, ~, null, True, ---, .nan, .inf)"),
                 ("num", "numbers with an explicit plus sign or without an integer part (+1, .5, -.5, +.5e1)"),
@@ -275,7 +275,7 @@ CFG = {
         },
         "C14": {
             "level": "other",
-            "explanation": "CBOR integer kernel, reader side: the arithmetic the real parse applies to the two integer major types (n -> n, n -> -1 - n via `neg as i128 ^ !0`) is proved exact for every 64-bit argument (machine or big integer result), one harness per header variant. Loop-free; complete for that function and domain. The writer side (encode of a machine integer through ciborium-ll) did not finish in CBMC (5 attempts: symbolic execution walks every arm of the recursive encode) and is not claimed. CSV / TSV, reader side: the real field readers invert the formats' quoting / escaping for every field content of length <= 2 over the metacharacter alphabet (bounded, enumerated), and the real CSV row reader is run on five texts of empty / quoted-empty cells (points: the quoted-empty last row that `[\"\"] | tocsv` writes is a row, null and the empty string stay apart). YAML: needs_quote(s) ==> must_quote(s) at literal points, with needs_quote written from the YAML 1.2.2 core schema (what a reader resolves to null / bool / int / float), the document markers and the plain-scalar rules (edge blanks, blank-#, colon-blank, line breaks, leading indicators). TOML: the key the real Display for Key writes is a non-empty bare run or a quoted string, at three literal keys.",
+            "explanation": "CBOR integer kernel, reader side: the arithmetic the real parse applies to the two integer major types (n -> n, n -> -1 - n via `neg as i128 ^ !0`) is proved exact for every 64-bit argument (machine or big integer result), one harness per header variant. Loop-free; complete for that function and domain. The writer side (encode of a machine integer through ciborium-ll) did not finish in CBMC (5 attempts: symbolic execution walks every arm of the recursive encode) and is not claimed. CSV / TSV, reader side: the real field readers invert the formats' quoting / escaping for every field content of length <= 2 over the metacharacter alphabet (bounded, enumerated), and the real CSV row reader is run on three texts of empty / quoted-empty cells (points: the quoted-empty last row that `[\"\"] | tocsv` writes is a row, null and the empty string stay apart). YAML: needs_quote(s) ==> must_quote(s) at literal points, with needs_quote written from the YAML 1.2.2 core schema (what a reader resolves to null / bool / int / float), the document markers and the plain-scalar rules (edge blanks, blank-#, colon-blank, line breaks, leading indicators). TOML: the key the real Display for Key writes is a non-empty bare run or a quoted string, at three literal keys.",
             "not_decided": "CBOR encode (writer side) and therefore the round trip itself; YAML (document structure, tags, anchors; plain-scalar quoting beyond the listed literals: must_quote + resolver on symbolic strings did not finish in 50 min), TOML tables and keys beyond three literals (toml-span), XML (xmlparser), the CSV / TSV writers (aho-corasick) and cells that reach the number parser, CBOR strings, floats, containers, big integers (num-bigint), --from / --to, well-formedness for independent readers",
             "assumptions": ["ciborium-ll's Header values are taken as given (the decoder that produces them is not verified)"],
         },
